@@ -420,6 +420,19 @@ def _count_ins_class(n):
 
 # ----------------------------------------------------------------------------- local geometry generators
 @functools.lru_cache(maxsize=None)
+def _S(*opts):
+    return st.sampled_from(opts)
+
+
+@functools.lru_cache(maxsize=None)
+def _I(lo, hi):
+    return st.integers(lo, hi)
+
+
+_B = st.booleans()
+
+
+@functools.lru_cache(maxsize=None)
 def _u(lo, hi):
     """Uniform on [lo, hi] (Hypothesis' own float strategy is strongly biased to 0 / the bounds / subnormals)."""
     d = st.integers(0, 99)  # ranges <= 127 are drawn uniformly; wider ones are biased towards small values
@@ -434,18 +447,18 @@ def _f(lo, hi):
 
 def _loc_point(draw, fam):
     if fam == "lattice":
-        return [draw(st.integers(-8, 8)), draw(st.integers(-8, 8))]
+        return [draw(_I(-8, 8)), draw(_I(-8, 8))]
     a, r = draw(_f(0, TWO_PI)), draw(_f(0.0, 1.0))
     return [r * math.cos(a), r * math.sin(a)]
 
 
 def _loc_path(draw, fam, nmin=2, nmax=6):
-    n = draw(st.integers(nmin, nmax))
+    n = draw(_I(nmin, nmax))
     pts = []
     for _ in range(n):
         x, y = _loc_point(draw, fam)
         if pts:
-            mode = draw(st.sampled_from(["free", "free", "free", "same_x", "same_y"]))
+            mode = draw(_S("free", "free", "free", "same_x", "same_y"))
             if mode == "same_x":
                 x = pts[-1][0]
             elif mode == "same_y":
@@ -456,17 +469,22 @@ def _loc_path(draw, fam, nmin=2, nmax=6):
     return pts
 
 
+@functools.lru_cache(maxsize=None)
+def _lattice_pts(R, kmin):
+    return st.lists(st.tuples(_I(-R, R), _I(-R, R)).filter(lambda p: p != (0, 0)), min_size=kmin, max_size=8, unique=True)
+
+
 def _loc_ring(draw, fam, R, cx=0, cy=0, kmin=3):
     """Closed chain around (cx, cy) with radius <= R (R int for the lattice family)."""
-    shape = draw(st.sampled_from(["box", "star"]))
+    shape = draw(_S("box", "star"))
     if fam == "lattice":
         R = int(R)
         if shape == "box" or R < 2:
-            x0, x1 = -draw(st.integers(1, R)), draw(st.integers(1, R))
-            y0, y1 = -draw(st.integers(1, R)), draw(st.integers(1, R))
+            x0, x1 = -draw(_I(1, R)), draw(_I(1, R))
+            y0, y1 = -draw(_I(1, R)), draw(_I(1, R))
             ring = [[x0, y0], [x1, y0], [x1, y1], [x0, y1]]
         else:
-            pts = draw(st.lists(st.tuples(st.integers(-R, R), st.integers(-R, R)).filter(lambda p: p != (0, 0)), min_size=max(3, kmin), max_size=8, unique=True))
+            pts = draw(_lattice_pts(R, max(3, kmin)))
             ring = [list(p) for p in sorted(pts, key=lambda p: (math.atan2(p[1], p[0]), p[0] * p[0] + p[1] * p[1]))]
     else:
         if shape == "box":
@@ -474,7 +492,7 @@ def _loc_ring(draw, fam, R, cx=0, cy=0, kmin=3):
             y0, y1 = -draw(_f(0.7, 1.0)) * R, draw(_f(0.7, 1.0)) * R
             ring = [[x0, y0], [x1, y0], [x1, y1], [x0, y1]]
         else:
-            k = draw(st.integers(kmin, 8))
+            k = draw(_I(kmin, 8))
             ph = draw(_f(0, TWO_PI))
             jit = 0.3 if kmin >= 6 else 0.8
             rlo = 0.7 if kmin >= 6 else 0.4
@@ -483,28 +501,28 @@ def _loc_ring(draw, fam, R, cx=0, cy=0, kmin=3):
                 a = ph + (i + draw(_f(0, jit))) * TWO_PI / k
                 r = draw(_f(rlo, 1.0)) * R
                 ring.append([r * math.cos(a), r * math.sin(a)])
-    if draw(st.booleans()):
+    if draw(_B):
         ring.reverse()
-    rot = draw(st.integers(0, len(ring) - 1))
+    rot = draw(_I(0, len(ring) - 1))
     ring = ring[rot:] + ring[:rot]
     ring = [[x + cx, y + cy] for x, y in ring]
     return ring + [list(ring[0])]
 
 
 def _loc_polygon(draw, fam, holes=None):
-    nh = draw(st.sampled_from([0, 0, 1, 2])) if holes is None else holes
+    nh = draw(_S(0, 0, 1, 2)) if holes is None else holes
     if fam == "lattice":
         if nh == 0:
             return [_loc_ring(draw, fam, 8)]
-        x0, x1 = -draw(st.integers(6, 8)), draw(st.integers(6, 8))
-        y0, y1 = -draw(st.integers(4, 8)), draw(st.integers(4, 8))
+        x0, x1 = -draw(_I(6, 8)), draw(_I(6, 8))
+        y0, y1 = -draw(_I(4, 8)), draw(_I(4, 8))
         shell = [[x0, y0], [x1, y0], [x1, y1], [x0, y1]]
-        if draw(st.booleans()):
+        if draw(_B):
             shell.reverse()
         shell = shell + [list(shell[0])]
         rings = [shell]
         for sx in ([-3, 3][:nh]):
-            rings.append(_loc_ring(draw, fam, 2, cx=sx + draw(st.integers(-1, 1)), cy=draw(st.integers(-1, 1))))
+            rings.append(_loc_ring(draw, fam, 2, cx=sx + draw(_I(-1, 1)), cy=draw(_I(-1, 1))))
         return rings
     if nh == 0:
         return [_loc_ring(draw, fam, 1.0)]
@@ -530,7 +548,7 @@ def _loc_atomic(draw, fam, kind):
         return ["LinearRing", _loc_ring(draw, fam, 8 if fam == "lattice" else 1.0)]
     if kind == "Polygon":
         return ["Polygon", _loc_polygon(draw, fam, holes=0)]
-    return ["Polygon", _loc_polygon(draw, fam, holes=draw(st.sampled_from([1, 2])))]
+    return ["Polygon", _loc_polygon(draw, fam, holes=draw(_S(1, 2)))]
 
 
 def _shift(g, ox, oy):
@@ -554,27 +572,27 @@ def _loc_geom(draw, fam, kind=None, depth=0, slots=None):
     """Local geometry as a list of 'atomic parts' tree: returns JSON geometry in local coordinates where every
     atomic part (Point/LineString/LinearRing/Polygon, also as member of a Multi*) sits in its own slot."""
     slots = slots or _Slots(fam)
-    kind = kind or draw(st.sampled_from(TOP_KINDS))
+    kind = kind or draw(_S(*TOP_KINDS))
     if kind in ATOMIC:
         return _shift(_loc_atomic(draw, fam, kind), *slots.next())
     if kind == "MultiPoint":
-        n = draw(st.integers(1, 5))
+        n = draw(_I(1, 5))
         return ["MultiPoint", [_shift(_loc_atomic(draw, fam, "Point"), *slots.next())[1] for _ in range(n)]]
     if kind == "MultiLineString":
-        n = draw(st.integers(1, 3))
+        n = draw(_I(1, 3))
         return ["MultiLineString", [_shift(_loc_atomic(draw, fam, "LineString"), *slots.next())[1] for _ in range(n)]]
     if kind == "MultiPolygon":
-        n = draw(st.integers(1, 3))
-        return ["MultiPolygon", [_shift(_loc_atomic(draw, fam, draw(st.sampled_from(["Polygon", "Polygon+holes"]))), *slots.next())[1] for _ in range(n)]]
+        n = draw(_I(1, 3))
+        return ["MultiPolygon", [_shift(_loc_atomic(draw, fam, draw(_S("Polygon", "Polygon+holes"))), *slots.next())[1] for _ in range(n)]]
     # collections
-    n = draw(st.integers(1, 4))
+    n = draw(_I(1, 4))
     members = []
     pool = ATOMIC + ["MultiPoint", "MultiLineString", "MultiPolygon"]
     for i in range(n):
-        if kind == "Nested" and depth < 2 and (i == 0 or draw(st.integers(0, 3)) == 0):
-            sub = _loc_geom(draw, fam, kind=draw(st.sampled_from(["GeometryCollection", "Nested"])) if depth == 0 else "GeometryCollection", depth=depth + 1, slots=slots)
+        if kind == "Nested" and depth < 2 and (i == 0 or draw(_I(0, 3)) == 0):
+            sub = _loc_geom(draw, fam, kind=draw(_S("GeometryCollection", "Nested")) if depth == 0 else "GeometryCollection", depth=depth + 1, slots=slots)
         else:
-            sub = _loc_geom(draw, fam, kind=draw(st.sampled_from(pool)), depth=depth + 1, slots=slots)
+            sub = _loc_geom(draw, fam, kind=draw(_S(*pool)), depth=depth + 1, slots=slots)
         members.append(sub)
     return ["GeometryCollection", members]
 
@@ -625,7 +643,7 @@ def _map_parts(g, fns, counter=None):
 
 # ----------------------------------------------------------------------------- placement for the densify family
 def _axis_mode(draw):
-    return draw(st.sampled_from(["at", "at", "straddle", "far", "far", "farther"]))
+    return draw(_S("at", "at", "straddle", "far", "far", "farther"))
 
 
 def _place_float(draw, anchor, s):
@@ -634,13 +652,13 @@ def _place_float(draw, anchor, s):
     for ax in (0, 1):
         mode = _axis_mode(draw)
         if mode == "at":
-            eps = draw(st.sampled_from([0.0, 0.0, 1.0, -1.0])) * s * 10 ** -draw(_u(2, 9))
+            eps = draw(_S(0.0, 0.0, 1.0, -1.0)) * s * 10 ** -draw(_u(2, 9))
             c = eps - s * anchor[ax]
         elif mode == "straddle":
             c = s * draw(_f(-1, 1)) - s * anchor[ax]
         else:
             lo, hi = (1, 4) if mode == "far" else (4, 6)
-            c = draw(st.sampled_from([1.0, -1.0])) * s * 10 ** draw(_u(lo, hi))
+            c = draw(_S(1.0, -1.0)) * s * 10 ** draw(_u(lo, hi))
         C.append(c)
     cx, cy = C
     return lambda p: [cx + s * p[0], cy + s * p[1]]
@@ -653,10 +671,10 @@ def _place_lattice(draw, anchor, u):
         if mode == "at":
             k = -int(anchor[ax])
         elif mode == "straddle":
-            k = -int(anchor[ax]) + draw(st.integers(-8, 8))
+            k = -int(anchor[ax]) + draw(_I(-8, 8))
         else:
             lo, hi = (8, 16) if mode == "far" else (17, 30)
-            k = draw(st.sampled_from([1, -1])) * (2 ** draw(st.integers(lo, hi)) + draw(st.integers(-9, 9)))
+            k = draw(_S(1, -1)) * (2 ** draw(_I(lo, hi)) + draw(_I(-9, 9)))
         K.append(k)
     kx, ky = K
     return lambda p: [(kx + int(p[0])) * u, (ky + int(p[1])) * u]
@@ -664,39 +682,39 @@ def _place_lattice(draw, anchor, u):
 
 @st.composite
 def s_segmented(draw):
-    fam = draw(st.sampled_from(["lattice", "float"]))
+    fam = draw(_S("lattice", "float"))
     loc = _loc_geom(draw, fam)
     parts = _atomic_parts(loc)
     if fam == "lattice":
-        unit = 2.0 ** draw(st.integers(-6, 12))
+        unit = 2.0 ** draw(_I(-6, 12))
         placer = lambda a: _place_lattice(draw, a, unit)  # noqa: E731
     else:
         unit = None
         s = 10 ** draw(_u(-2, 6))
         placer = lambda a: _place_float(draw, a, s)  # noqa: E731
-    mixed = len(parts) > 1 and draw(st.booleans())
+    mixed = len(parts) > 1 and draw(_B)
     if mixed:
         fns = [placer(_first_vertex(p)) for p in parts]
     else:
-        a = _first_vertex(parts[draw(st.integers(0, len(parts) - 1))])
+        a = _first_vertex(parts[draw(_I(0, len(parts) - 1))])
         f = placer(a)
         fns = [f] * len(parts)
     G = _map_parts(loc, fns)
     D, Lsum, M = geom_stats(G)
     edges = [math.hypot(b[0] - a[0], b[1] - a[1]) for k, ch in g_chains(G) if k != "pt" for a, b in zip(ch, ch[1:])]
     edges = [e for e in edges if e > 0]
-    how = draw(st.sampled_from(["phi", "phi", "phi", "edge", "edge", "inf"]))
+    how = draw(_S("phi", "phi", "phi", "edge", "edge", "inf"))
     if how == "inf":
         res = math.inf
     elif fam == "lattice":
-        m = draw(st.sampled_from([0.25, 0.5, 1, 1, 2, 2, 3, 4, 5, 6, 7, 8, 12, 16, 24]))
+        m = draw(_S(0.25, 0.5, 1, 1, 2, 2, 3, 4, 5, 6, 7, 8, 12, 16, 24))
         res = m * unit
         while Lsum / res > 4000:
             res *= 2
     else:
         if how == "edge" and edges:
-            e = edges[draw(st.integers(0, len(edges) - 1))]
-            res = e * draw(st.sampled_from([1.0, 0.5, 1 / 3.0, 1 - 1e-6, 1 + 1e-6, 2.0, 0.25, 0.1]))
+            e = edges[draw(_I(0, len(edges) - 1))]
+            res = e * draw(_S(1.0, 0.5, 1 / 3.0, 1 - 1e-6, 1 + 1e-6, 2.0, 0.25, 0.1))
         elif D > 0:
             res = D * 10 ** draw(_u(math.log10(1 / 500), math.log10(3)))
         else:
@@ -792,15 +810,15 @@ def _ll_geom(draw, src, box, axis_anchor=True):
         if hi_c < lo_c:
             lo_c = hi_c = (lo + hi) / 2
         c = None
-        if axis_anchor and axv is not None and draw(st.integers(0, 2)) == 0:
-            eps = draw(st.sampled_from([0.0, 0.0, 1e-9, -1e-9, 1e-4, -1e-4, 0.3, -0.3])) * h
+        if axis_anchor and axv is not None and draw(_I(0, 2)) == 0:
+            eps = draw(_S(0.0, 0.0, 1e-9, -1e-9, 1e-4, -1e-4, 0.3, -0.3)) * h
             c = axv + eps - h * anchor[ax]
             if not lo_c <= c <= hi_c:
                 c = None
             else:
                 lab.append("xy"[ax] + "-axis")
         if c is None:
-            c = draw(_f(lo_c, hi_c))
+            c = lo_c + (hi_c - lo_c) * draw(_f(0.0, 1.0))
         c0.append(c)
     lon0, lat0 = c0
 
@@ -811,7 +829,7 @@ def _ll_geom(draw, src, box, axis_anchor=True):
 
 
 def _pair_tags(draw):
-    a, b = draw(st.sampled_from(PAIRS))
+    a, b = draw(_S(*PAIRS))
     return draw(crs_tags(labels=[a], allow_none=False)), draw(crs_tags(labels=[b], allow_none=False))
 
 
@@ -890,7 +908,7 @@ def o_round_trip(case, T):
 
 # ----------------------------------------------------------------------------- same CRS / no CRS
 def _res_arg(draw):
-    return draw(st.sampled_from([None, None, "inf", 0.5, 0.05, 2.0]))
+    return draw(_S(None, None, "inf", 0.5, 0.05, 2.0))
 
 
 @st.composite
@@ -898,7 +916,7 @@ def s_same_crs(draw):
     src = draw(crs_tags(allow_none=False))
     dst = draw(crs_tags(labels=[src["label"]], allow_none=False))
     G, _ = _ll_geom(draw, src["label"], CRS_POOL[src["label"]][1])
-    return {"src": src, "dst": dst, "geom_lonlat": G, "phi": _res_arg(draw), "kw": draw(st.booleans())}
+    return {"src": src, "dst": dst, "geom_lonlat": G, "phi": _res_arg(draw), "kw": draw(_B)}
 
 
 def _res_value(phi, G):
@@ -940,7 +958,7 @@ def o_same_crs(case, T):
 def s_no_crs(draw):
     dst = draw(crs_tags(allow_none=False))
     G, _ = _ll_geom(draw, dst["label"], CRS_POOL[dst["label"]][1])
-    return {"dst": dst, "geom_lonlat": G, "phi": _res_arg(draw), "kw": draw(st.booleans())}
+    return {"dst": dst, "geom_lonlat": G, "phi": _res_arg(draw), "kw": draw(_B)}
 
 
 def o_no_crs(case, T):
@@ -965,12 +983,12 @@ def s_to_crs_res(draw):
     src, dst = _pair_tags(draw)
     box = _isect(CRS_POOL[src["label"]][1], CRS_POOL[dst["label"]][1])
     G, anch = _ll_geom(draw, src["label"], box)
-    how = draw(st.sampled_from(["phi", "phi", "phi", "phi", "none", "inf"]))
+    how = draw(_S("phi", "phi", "phi", "phi", "none", "inf"))
     if how == "phi":
         phi = 10 ** draw(_u(math.log10(1 / 500), math.log10(3)))
     else:
         phi = None if how == "none" else "inf"
-    return {"src": src, "dst": dst, "geom_lonlat": G, "phi": phi, "kw": draw(st.booleans()), "anchor": anch}
+    return {"src": src, "dst": dst, "geom_lonlat": G, "phi": phi, "kw": draw(_B), "anchor": anch}
 
 
 def o_to_crs_res(case, T):
